@@ -6,7 +6,7 @@
 #include "enum_common.h"
 #include "utfjudge.h"
 
-static unsigned long g_evals = 0, g_nontrivial = 0, g_illformed = 0, g_trunc = 0, g_withnul = 0;
+static unsigned long g_evals = 0, g_nontrivial = 0, g_illformed = 0, g_trunc = 0, g_withnul = 0, g_noerr = 0;
 static en::Fails fails;
 
 // One reusable exact-size block per byte length: [block, block+len) ends at the allocation's end.
@@ -22,6 +22,9 @@ template <typename U> static void run_case(int enc, const U *s, size_t units, bo
         en::current(enc == 1 ? "count8" : enc == 2 ? "count16" : "count32", s, bytes, 0);
         const void *err = nullptr;
         size_t n = gr_count_unicode_characters(gr_encform(enc), b, b + bytes, &err);
+        // the header allows pError == NULL ("if no such information is required"): same reads (ASan on the exact block), same count
+        if (gr_count_unicode_characters(gr_encform(enc), b, b + bytes, nullptr) != n) fails.add("count-depends-on-whether-pError-is-given");
+        ++g_noerr;
         long eo = err ? long((static_cast<const uint8_t *>(err) - b) / long(sizeof(U))) : -1;
         if (err && (static_cast<const uint8_t *>(err) < b)) eo = -2;
         const char *l = utfjudge::judge(enc, b, units, true, n, eo);
@@ -37,6 +40,8 @@ template <typename U> static void run_case(int enc, const U *s, size_t units, bo
         en::current(enc == 1 ? "count8" : enc == 2 ? "count16" : "count32", s, nb, 1);
         const void *err = nullptr;
         size_t n = gr_count_unicode_characters(gr_encform(enc), b, nullptr, &err);
+        if (gr_count_unicode_characters(gr_encform(enc), b, nullptr, nullptr) != n) fails.add("count-depends-on-whether-pError-is-given");
+        ++g_noerr;
         long eo = err ? long((static_cast<const uint8_t *>(err) - b) / long(sizeof(U))) : -1;
         if (err && (static_cast<const uint8_t *>(err) < b)) eo = -2;
         const char *l = utfjudge::judge(enc, b, k + 1, false, n, eo);
@@ -64,6 +69,8 @@ template <typename U> static void do_string(int enc, const U *s, size_t units) {
         en::current(enc == 1 ? "count8" : enc == 2 ? "count16" : "count32", t, nb, 1);
         const void *err = nullptr;
         size_t n = gr_count_unicode_characters(gr_encform(enc), b, nullptr, &err);
+        if (gr_count_unicode_characters(gr_encform(enc), b, nullptr, nullptr) != n) fails.add("count-depends-on-whether-pError-is-given");
+        ++g_noerr;
         long eo = err ? long((static_cast<const uint8_t *>(err) - b) / long(sizeof(U))) : -1;
         if (err && (static_cast<const uint8_t *>(err) < b)) eo = -2;
         const char *l = utfjudge::judge(enc, b, units + 1, false, n, eo);
